@@ -29,7 +29,7 @@ from vlib import log
 PROPS = ["C13"]
 
 FLAGS = ["GetHitKeepsLock", "MissReleases", "InsertTakesLock", "RemoveLocksBeforeLookup",
-         "EmptyTakesLock", "ClearTakesLock", "ScanTakesLock"]
+         "EmptyTakesLock", "ClearTakesLock", "ScanTakesLock", "StatsTakeLock"]
 KEY_NAMES = ["uint64", "key_view"]
 TRACE_CFG = "cfg/MutexTrace/trace.cfg"
 TSAN = ("clang++", ["-O1", "-g", "-mavx2", "-DUNODB_DETAIL_WITH_STATS", "-DUNODB_SPINLOCK_LOOP_VALUE=1",
